@@ -270,6 +270,11 @@ impl Registry {
     }
 }
 
+/// Model-only: hook called at the start of every `Poll::poll` with the timeout it was given. The harness uses it to let
+/// (virtual) time pass and to inject a failure: a non-zero return value is the errno `poll` fails with (e.g. EINTR - mio
+/// does not retry an interrupted epoll_wait).
+pub static mut VERIF_POLL_HOOK: Option<fn(Option<Duration>) -> i32> = None;
+
 #[derive(Debug)]
 pub struct Poll {
     registry: Registry,
@@ -286,8 +291,14 @@ impl Poll {
     }
     /// Delivers one event per ready fd whose registered interest intersects its readiness; the
     /// readiness marks are consumed. Never blocks (time is not modelled here).
-    pub fn poll(&mut self, events: &mut Events, _timeout: Option<Duration>) -> io::Result<()> {
+    pub fn poll(&mut self, events: &mut Events, timeout: Option<Duration>) -> io::Result<()> {
         events.clear();
+        if let Some(h) = unsafe { VERIF_POLL_HOOK } {
+            let e = h(timeout);
+            if e != 0 {
+                return Err(io::Error::from_raw_os_error(e));
+            }
+        }
         let ready = unsafe { &mut *self.registry.ready.get() };
         let mut i = 0;
         while i < CAP {
